@@ -53,12 +53,15 @@ Declared(ci) == LET w == g.cw[ci] IN [j \in 1..Len(w) |-> Frac(w[j], SumSeq(w))]
 Uniform(n) == [j \in 1..n |-> Frac(1, n)]
 PlayerIx(site) == IF site = "P1" THEN 1 ELSE 2
 
+\* a weight vector that is not a tuple of small rationals is logged in micro-units (exact = FALSE)
+ApproxDist(w) == /\ \A j \in 1..Len(w) : w[j][1] >= 0 /\ w[j][2] = 1000000
+                 /\ SumSeq([j \in 1..Len(w) |-> w[j][1]]) \in (1000000 - Len(w))..(1000000 + Len(w))
 WeightsOK(r, d) ==
-  IF d.site = "C" THEN RatSeq(d.w) = Declared(d.info)
+  IF d.site = "C" THEN d.exact /\ RatSeq(d.w) = Declared(d.info)
   ELSE LET p == PlayerIx(d.site)
        IN /\ Len(d.w) = g.nacts[p][d.info]
-          /\ IsDist(d.w)
-          /\ (np = 0 => RatSeq(d.w) = (IF b.inj THEN RatSeq(b.cur[p][d.info]) ELSE Uniform(Len(d.w))))
+          /\ (IF d.exact THEN IsDist(d.w) ELSE ApproxDist(d.w))
+          /\ (np = 0 => d.exact /\ RatSeq(d.w) = (IF b.inj THEN RatSeq(b.cur[p][d.info]) ELSE Uniform(Len(d.w))))
           /\ (np + 1 = b.passes /\ "final" \in DOMAIN b => RatSeq(d.w) = RatSeq(b.final[p][d.info]))
 
 \* the reset counter of the draw's site: chance caches are reset after every pass; in the external
@@ -75,15 +78,16 @@ Cap == 1000
 Bump(t, d) ==
   LET key == KeyOf(d)
       old == IF key \in DOMAIN t THEN t[key] ELSE [j \in 1..Len(d.w) |-> 0]
-  IN IF SumSeq(old) >= Cap THEN t
+  IN IF SumSeq(old) >= Cap \/ ~d.exact THEN t
      ELSE [k \in (DOMAIN t) \cup {key} |-> IF k = key THEN [old EXCEPT ![d.ix] = @ + 1] ELSE t[k]]
 RECURSIVE BumpAll(_, _, _)
 BumpAll(t, ds, j) == IF j > Len(ds) THEN t ELSE BumpAll(Bump(t, ds[j]), ds, j + 1)
 
 SPass == /\ IsEvent("pass")
          /\ np < b.passes
-         /\ PassOK(Rec[l])
-         /\ \A j \in 1..Len(Rec[l].draws) : WeightsOK(Rec[l], Rec[l].draws[j]) /\ CounterOK(Rec[l], Rec[l].draws[j])
+         \* "= TRUE": evaluate as a plain predicate (TLC would otherwise split disjunctions into successors)
+         /\ PassOK(Rec[l]) = TRUE
+         /\ (\A j \in 1..Len(Rec[l].draws) : WeightsOK(Rec[l], Rec[l].draws[j]) /\ CounterOK(Rec[l], Rec[l].draws[j])) = TRUE
          /\ np' = np + 1
          /\ tally' = BumpAll(tally, Rec[l].draws, 1)
          /\ UNCHANGED <<g, b>>
@@ -111,7 +115,7 @@ FreqKeyOK(key, counts) ==
              <= Crit(dof) * n * W
 Tested(t) == {key \in DOMAIN t : SumSeq(t[key]) >= 200 /\ LcmSeq(key[2]) <= 16}
 SFreq == /\ IsEvent("freq")
-         /\ \A key \in DOMAIN tally : FreqKeyOK(key, tally[key])
+         /\ (\A key \in DOMAIN tally : FreqKeyOK(key, tally[key])) = TRUE
          /\ PrintT(<<"FREQ", l, ToJson([tested |-> {[kind |-> key[1], w |-> key[2], counts |-> tally[key]] : key \in Tested(tally)}])>>)
          /\ tally' = NoTally
          /\ UNCHANGED <<g, b, np>>
